@@ -239,6 +239,16 @@ def constructed_objects(ctx, report):
                         report.add('C02.R3', '%s@converter[%s]' % (c.resolve('_parse').construct, fld.name),
                                    'parsed value %s reaches the converter %s of %s.%s unconverted: %s is raised inside the generated __init__, outside every handler' % (
                                        src.key, cd, k.name, fld.name, ' / '.join(x.split('.')[-1] for x in ext_raises)))
+                # a converter of the dependency that hands its argument back unchanged when it cannot convert it, in front of an
+                # instance_of validator: the validator then raises TypeError inside __init__ for undecodable wire text
+                if isinstance(fld.converter_node, ast.Call) and isinstance(fld.converter_node.func, ast.Name) and src is not None and \
+                        swallowing_converter(fld.converter_node.func.id) and fld.validator_node is not None and 'instance_of' in ast.unparse(fld.validator_node) and \
+                        'optional' not in ast.unparse(fld.validator_node):
+                    conv_applied = src.op.args.get('item_class') or src.op.args.get('converter')
+                    if conv_applied is None or show(conv_applied) in ('Ext(builtins.str)', 'str'):
+                        report.add('C02.R3', '%s@converter[%s]' % (c.resolve('_parse').construct, fld.name),
+                                   'the text parsed as %s reaches %s.%s through %s(), which returns undecodable text unchanged; the instance_of validator then '
+                                   'raises TypeError inside the generated __init__' % (src.key, k.name, fld.name, fld.converter_node.func.id))
                 if src is not None and src.op.prim == 'parse_timestamp':
                     optional = isinstance(val, ValidatorV) and val.kind == 'optional'
                     if isinstance(val, ValidatorV) and val.kind == 'instance_of' and not optional:
@@ -382,3 +392,32 @@ def absent_directive_defaults(ctx, report):
                            'TypeError out of the parser' % (fld.name, ast.unparse(v)[:60]))
     if n < 10:
         report.error('C02.R6: only %d None-defaulted directives found (anchor moved)' % n)
+
+
+_SWALLOW = {}
+
+
+def swallowing_converter(factory_name):
+    """does the converter built by cryptodatahub.common.types.<factory_name>() return its argument unchanged when the
+    conversion fails (``try: value = T(...) except ...: pass ; return value``)?  decided on the dependency source"""
+    if factory_name in _SWALLOW:
+        return _SWALLOW[factory_name]
+    import os
+    from ..model import find_dependency
+    res = False
+    try:
+        with open(os.path.join(find_dependency() or '', 'common', 'types.py')) as fh:
+            tree = ast.parse(fh.read())
+        funcs = {n.name: n for n in tree.body if isinstance(n, ast.FunctionDef)}
+        classes = {n.name: n for n in tree.body if isinstance(n, ast.ClassDef)}
+        f = funcs.get(factory_name)
+        if f is not None:
+            for r in [n for n in ast.walk(f) if isinstance(n, ast.Return) and isinstance(n.value, ast.Call) and isinstance(n.value.func, ast.Name)]:
+                k = classes.get(r.value.func.id)
+                call = [m for m in (k.body if k else []) if isinstance(m, ast.FunctionDef) and m.name == '__call__']
+                if call:
+                    res = any(isinstance(h, ast.ExceptHandler) and len(h.body) == 1 and isinstance(h.body[0], ast.Pass) for h in ast.walk(call[0]))
+    except (OSError, SyntaxError):
+        res = False
+    _SWALLOW[factory_name] = res
+    return res
